@@ -187,6 +187,8 @@ Definition gen_mem_id (bs : Z) (old new : list Z) : option (list op) :=
   gen_mem _ id_hash list_eqb bs (cks_id bs old) new.
 Definition gen_stream_id (chunk bs : Z) (old new : list Z) : option (list op) :=
   gen_stream _ id_hash list_eqb bs (cks_id bs old) chunk new.
-(* the streaming generator with the CHUNK_SIZE found in the source *)
+(* the streaming generator with the chunk the source uses: CHUNK_SIZE, and at least one block (`fix: the streaming delta
+   generator reads chunks of at least one block`: let chunk_size = CHUNK_SIZE.max(block_size)) *)
+Definition stream_chunk (bs : Z) : Z := Z.max CHUNK_SIZE bs.
 Definition gen_stream_impl (bs : Z) (old new : list Z) : option (list op) :=
-  gen_stream_id CHUNK_SIZE bs old new.
+  gen_stream_id (stream_chunk bs) bs old new.
